@@ -324,6 +324,7 @@ inductive VerbK where
   | insertChar (c : Char)
   | replaceChar (c : Char)      -- R-mode typing and visual r
   | openLine (after : Bool)     -- o / O: the line break they add (InsertModeLineBreak)
+  | joinLines (count : Nat)     -- [N]J
   | toggleInplace (count : Nat) -- ~
   | replaceInplace (c : Char) (count : Nat) -- r<c>
   deriving Repr, BEq, DecidableEq
@@ -346,6 +347,27 @@ def openLineIdx (after : Bool) (lb : LB) : Nat :=
     else if st == 0 && en == lb.max && !(lb.gs.flatten.getLast? == some '\n') then lb.max
     else if after then min en (if lb.excl then lb.max - 1 else lb.max)
     else min (min (st - 1) lb.max) (if lb.excl then lb.max - 1 else lb.max)
+
+/-- One `J` (fix 708f7e5): the line break of the cursor line and the blanks that lead the next line are
+replaced by one space — by nothing when either line is empty, when the line already ends with a blank or
+the next one starts with `)` — and the cursor goes to where the lines were joined. `none` = no line below. -/
+def joinOnce (lb : LB) : Option LB :=
+  match thisLine lb with
+  | none => none
+  | some (st, en) =>
+    if en == 0 || en ≥ lb.max || !isNlAtGs lb.gs (en - 1) then none
+    else
+      (fun nextStart =>
+        (fun addSpace =>
+          some ⟨lb.gs.take (en - 1) ++ (if addSpace then [[' ']] else []) ++ lb.gs.drop nextStart, en - 1, lb.excl⟩)
+        (!endsLineAt lb.gs nextStart && !(en - 1 == st) && !(isBlankAt lb.gs (en - 2)) && !(lb.gs[nextStart]? == some [')'])))
+      (blanksFwd lb.gs (lb.gs.length - en + 1) en)
+
+/-- `[N]J`: N - 1 joins (at least one), each from where the last one left the cursor; stops when there is no
+line below. -/
+def joinLines (lb : LB) : Nat → LB
+  | 0 => lb
+  | k + 1 => match joinOnce lb with | none => lb | some lb' => joinLines lb' k
 
 def MK.isNull : MK → Bool | .null => true | _ => false
 
@@ -397,6 +419,8 @@ def execVerbText (v : VerbK) (mk : MK) (reg : RegName) (lb : LB) (regs : Regs) :
 
   | .openLine after =>
     .ok ⟨(lb.gs.take (openLineIdx after lb)).flatten ++ ['\n'] ++ (lb.gs.drop (openLineIdx after lb)).flatten, regs⟩
+  | .joinLines n =>
+    .ok ⟨(joinLines lb (max (n - 1) 1)).gs.flatten, regs⟩
   | .toggleInplace n =>
     .ok ⟨(toggleInplaceGo n lb.cur lb.gs).flatten, regs⟩
   | .replaceInplace c n =>
